@@ -235,8 +235,7 @@ struct Value {
             }
         }
         // opcode check
-        opcode = GetOpCode(v);
-        if (opcode != OP_INVALIDOPCODE) {
+        if (ParseOpCode(v, opcode)) {
             type = T_OPCODE;
             return;
         }
